@@ -73,7 +73,9 @@ Definition check15 (k : case15) : Z :=
                                                   | _ => false end
                                       | _ => false end) used in
       let spec :=
-        negb (if o_raised ob then true      (* a raising handshake (e.g. EBB reply without a version) is outside the property *)
+        negb (if o_raised ob then existsb (fun e => match e with Line s => contains (strip s) (T "EBB") | _ => false end) used
+              (* a handshake that raises is outside the property only when a device did answer as an EBB (e.g. without a version text);
+                 a silent or non-EBB device, or a port that cannot be opened, must give False with an error recorded, not an exception *)
               else match o_ret ob with
                    | RBool true => match o_err ob with None => ebb_ok | Some _ => true end
                    | RBool false => match o_err ob with Some _ => true | None => false end &&
